@@ -28,7 +28,7 @@ META["claim"] += " " + 'Also: two or three connections of one process, each in t
 TEXTS = ["", "a", "é", "€", "\U0001f600", "ab€"[:2] + "c", "aé"]
 BINS = [b"", b"\x00", b"\xff\xfe", b"\x80\x81\x82", b"\xc3\x28\xa0\xa1"]
 GAPS = {"none": b"", "ping": None, "pongping": None}
-CALLS = [("recv", False), ("recv_data", False), ("recv_data_frame", False), ("recv_data_frame", True)]
+CALLS = [("recv", False), ("recv_data", False), ("recv_data_frame", False), ("recv_data_frame", True), ("next", False), ("iter", False)]
 
 
 def compositions(n, k):
